@@ -359,7 +359,12 @@ def sequences_family(gen, n):
         lambda: {"t": T("float64"), "v": "0x400921fb54442d18"},
         lambda: {"t": S, "v": hx(gen.rng.choice([b"x", "中".encode(), b"y"]))},       # 11: one UTF-16 unit
         lambda: {"t": S, "v": ""},                                                       # 12: empty
+        # 13, 14: one message that registers well over a thousand strings / pointers (tables of that size may be
+        # handled differently by Reset); what follows the Reset must start from empty tables and index 0
+        lambda: {"t": Slice(S), "v": [hx(b"big-%d" % i) for i in range(gen.rng.choice([1030, 1200]))]},
+        lambda: {"t": Slice(Ptr(Reg("One"))), "v": [{"id": 880000 + i, "v": {"V": str(i)}} for i in range(1100)]},
     ]
+    NSMALL = 13   # random scripts draw from the first 13 entries only
     fixed = [
         [("encode", 1), ("reset",), ("encode", 1)],                       # same struct type again after Reset
         [("encode", 1), ("encode", 1), ("encode", 0), ("encode", 0)],     # class and string reuse without Reset
@@ -372,6 +377,10 @@ def sequences_family(gen, n):
         [("write", 0), ("write", 0), ("encode", 0), ("encode", 3)],
         [("write", 9), ("encode", 9), ("write", 1), ("encode", 1), ("write", 3), ("encode", 3)],
         [("write", 11), ("write", 12), ("write", 1), ("reset",), ("write", 1), ("encode", 1)],
+        [("encode", 13), ("reset",), ("encode", 3), ("encode", 0), ("encode", 9), ("encode", 9)],
+        [("encode", 14), ("reset",), ("encode", 9), ("encode", 3), ("encode", 3)],
+        [("encode", 13), ("encode", 14), ("reset",), ("reset",), ("encode", 3)],
+        [("encode", 3), ("reset",), ("encode", 13), ("reset",), ("encode", 3), ("encode", 1), ("encode", 1)],
     ]
     scripts = list(fixed)
     for _ in range(n):
@@ -381,7 +390,7 @@ def sequences_family(gen, n):
             if gen.rng.random() < 0.25 and sc:
                 sc.append(("reset",))
             else:
-                sc.append(("write" if gen.rng.random() < 0.3 else "encode", gen.rng.randrange(len(pool))))
+                sc.append(("write" if gen.rng.random() < 0.3 else "encode", gen.rng.randrange(NSMALL)))
         scripts.append(sc)
     for sc in scripts:
         seq = []
